@@ -61,6 +61,7 @@ type Scenario struct {
 	StallAt     int            `json:"stall_at,omitempty"` // tcp, one peer: before its n-th frame (1-based) the peer sends only StallOctets of it, pauses longer than the server\'s read timeout, then carries on
 	StallOctets int            `json:"stall_octets,omitempty"`
 	ShutAfter   int            `json:"shut_after,omitempty"` // udp: Shutdown is called after this many steps, while peers are still sending (0 = after they are done)
+	Transient   []int          `json:"transient,omitempty"`  // these accept / datagram-read attempts fail with a temporary, non-timeout error
 	Msgs        []InMsg        `json:"msgs,omitempty"`
 	Initial     map[string]int `json:"initial,omitempty"` // mux: patterns registered before the tasks start
 	Ops         []MuxOp        `json:"ops,omitempty"`
@@ -155,6 +156,12 @@ func Gen(seed uint64, tier string) any {
 		sc.StallAt = 1 + r.IntN(len(sc.Msgs))
 		b, _ := hex.DecodeString(sc.Msgs[sc.StallAt-1].Hex)
 		sc.StallOctets = r.IntN(len(b) + 2)
+	}
+	if core.Chance(r, 12) {
+		sc.Transient = append(sc.Transient, r.IntN(3))
+		if core.Chance(r, 40) {
+			sc.Transient = append(sc.Transient, sc.Transient[0]+1+r.IntN(2))
+		}
 	}
 	return sc
 }
@@ -553,6 +560,11 @@ func runAdmission(sc *Scenario, res *core.Result, verbose bool) {
 	} else {
 		a.pc = n.ListenPacket()
 		a.srv.PacketConn = a.pc
+	}
+	if a.pc != nil {
+		a.pc.Transient = sc.Transient
+	} else {
+		a.l.Transient = sc.Transient
 	}
 	for _, im := range sc.Msgs {
 		b, _ := hex.DecodeString(im.Hex)
